@@ -855,6 +855,7 @@ func (e *Exec) builtin(f *frame, st *State, name string, c *ssa.CallCommon, args
 		case KSlice:
 			return Val{T: app("sl-len", v.T), Ty: tyInt}
 		case KMap:
+			e.guardMapUse(f, st, v, false, ins)
 			l := e.mapLen(st, v.T)
 			e.S.assume(app(">=", l, "0"))
 			e.S.assume(implies(eq(v.T, "0"), eq(l, "0")))
@@ -879,6 +880,7 @@ func (e *Exec) builtin(f *frame, st *State, name string, c *ssa.CallCommon, args
 		m, k := args[0], args[1]
 		mt := c.Args[0].Type().Underlying().(*types.Map)
 		e.frameCheckMap(f, st, m.T, ins)
+		e.guardMapUse(f, st, m, true, ins)
 		e.mapDelete(st, m.T, k.T, mt)
 		return Val{}
 	case "print", "println", "noop":
